@@ -199,12 +199,16 @@ def invalid_operands(mn):
                 "#%0000000100000000"]
     if w:
         out += ["#65536", "#70000", "#-32769", "#-40000", "#$10000"]
+        out += ["#65535+1", "#0-40000", "#256*256", "#0-32769"]       # the same out-of-range values as expressions of two constants
+    if w == 1:
+        out += ["#200+100", "#0-200", "#16*16", "#0-129"]
     if w == 2:
         out += ["#-32769"]
     if not w:
         out += ["#1", "#$10", "#-1"]                       # no immediate mode
     if "dir" in kinds:
         out += ["<$1234", "<256", "<$0100", "<65535", "70000", "65536", ">70000", "$10000"]
+        out += ["<255+1", "<128*2", "65535+1", ">65535+1", "256*256"]
     else:
         out += ["$10", "$1234", "<$10", ">$1234", "100"] if "inh" not in kinds and "rel8" not in kinds and "rel16" not in kinds else []
     if "idx" in kinds:
@@ -213,6 +217,8 @@ def invalid_operands(mn):
                 "[,X+]", "[,-X]", "[,Y+]", "[,-S]", ",X+++", ",---X", ",-X+", "1,X+", "1,-X", "1,X++", "A,X+", "[A,--X]",
                 ",XY", "5,XY", ",XS", "1,YU", ",PCRX", "5,XPCR", "[,X", ",X]", "[[,X]]", ",X,Y", "1,2,X",
                 "CC,X", "DP,X", "PC,X", "X,X", "S,Y"]
+        out += ["[65535+1]", "65535+1,X", "0-40000,X", "0-32769,Y", "[0-40000,U]", "[100-33000,X]", "0-65535,U", "65535+1,PCR", "0-32769,PCR",
+                "256*256,S", "[0-32769,PCR]"]
     else:
         out += [",X", "5,X", "[,X]", "A,X", ",X+", "5,PCR", "[$1000]"] if "stkS" not in kinds and "stkU" not in kinds and "pair" not in kinds else []
     if "inh" in kinds:
